@@ -3,7 +3,7 @@ From Grule Require Import Base Values Syntax EngineAbs Facts Eval Refinement Mem
 Theorem C14 : forall rules meth panics_inside mutating
   (meth_pure : forall fs f args ret fs', mutating f = false -> meth fs f args = Ok (ret, fs') -> fs' = fs),
   rules_ok rules mutating -> dependency_hypothesis rules meth mutating ->
-  forall es, NoDup (map e_key es) -> forall c, (0 <= c_max c)%Z ->
+  forall es, NoDup (map e_key es) -> forall c,
   forall order, (forall i l, Permutation.Permutation (order i l) l) ->
   C14_statement rules meth panics_inside mutating es c order.
 Proof. exact C14_proved. Qed.
